@@ -204,7 +204,14 @@ impl Model {
         );
         match op {
             Op::RequestConnection { app } => {
-                if self.st == St::Disconnected {
+                if self.st == St::Disconnected && app.len() > 65_535 && !obs.ok && obs.bytes_emitted == 0 {
+                    // a name AMF0 cannot express, refused without bytes: nothing was requested, so
+                    // nothing is outstanding and no state may have changed (what follows is judged
+                    // against a model that never saw this call)
+                    want_ok = false;
+                    silent = true;
+                    self.corners.push("connect-refused-name-not-expressible");
+                } else if self.st == St::Disconnected {
                     match self.learn_txid(&obs.tags, "connect") {
                         Ok(id) => {
                             self.outstanding.insert(id, Purpose::Connect);
@@ -320,7 +327,7 @@ impl Model {
                 }
             }
             Op::OnStatus { code, form, .. } => {
-                if (*form != 0 && *form != 4) || code.is_none() {
+                if !(*form == 0 || (4..=9).contains(form)) || code.is_none() {
                     want_ok = false; // malformed status arguments
                 } else {
                     match code.as_deref().unwrap() {
